@@ -16,7 +16,10 @@ def run(cmd, cwd, timeout=900):
     import signal, tempfile, time
     for attempt in (1, 2):
         with tempfile.TemporaryFile('w+') as f:
-            p = subprocess.Popen(cmd, cwd=cwd, stdout=f, stderr=subprocess.STDOUT, start_new_session=True)
+            env = dict(os.environ)
+            if cwd == wt:
+                env['PYTHONPATH'] = wt  # /venv's editable install points at /repo: the worktree must come first
+            p = subprocess.Popen(cmd, cwd=cwd, stdout=f, stderr=subprocess.STDOUT, start_new_session=True, env=env)
             import re
             t0 = time.time()
             rc = None
